@@ -29,7 +29,7 @@ RULE = ('per shard a pool of call specifications over ~60 public functions (conv
         'over 2..8 threads.  Refuting events: a logged write (new != old) to a shipped Ellipsoid/Projection/Transformation/'
         'TransformationSD; a catalogue snapshot differing after a history; a caller-owned list/array/angle/coordinate argument whose '
         'snapshot differs after the call; a result not bit-identical to the golden result of the same call.  '
-        'distinct = distinct call signatures x (sequential | threaded)')
+        'distinct = distinct call signatures x (sequential | threaded) After its digest is taken every result is edited in place by the caller wherever it is mutable (a shipped constant handed back as a result is reported instead); the pool holds calls the library refuses (repeated / too few readings, invalid HP in an array, wrong-shaped covariance, short parameter list, latitude outside the band): their arguments must come back untouched and the refusal must repeat.')
 ASSUMPTIONS = ['golden = the same call evaluated in a fresh interpreter immediately after a full reload of the geodepy modules with '
                'nothing else executed', 'CPython GIL: the interleavings explored are those the switch interval and the injected yields '
                'produce (counted in the evidence), not all interleavings', 'writes that bypass __setattr__ (object.__setattr__, '
